@@ -81,6 +81,7 @@ func (s *Store) Push(b bpv7.Bundle) error {
 			return err
 		}
 
+		simHook("push.insert", bi.Id)
 		return s.bh.Insert(bi.Id, bi)
 	} else if bi.Fragmented {
 		if !biStore.Fragmented {
@@ -115,6 +116,7 @@ func (s *Store) Push(b bpv7.Bundle) error {
 			}
 
 			biStore.Parts = append(biStore.Parts, compPart)
+			simHook("push.update", biStore.Id)
 			return s.bh.Update(biStore.Id, biStore)
 		}
 	} else {
@@ -132,11 +134,13 @@ func (s *Store) Update(bi BundleItem) error {
 		"bundle": bi.Id,
 	}).Debug("Store updates BundleItem")
 
+	simHook("update", bi.Id)
 	return s.bh.Update(bi.Id, bi)
 }
 
 // Delete a BundleItem, represented by the "scrubbed" BundleID.
 func (s *Store) Delete(bid bpv7.BundleID) error {
+	simHook("delete", bid.Scrub().String())
 	if bi, err := s.QueryId(bid); err == nil {
 		log.WithFields(log.Fields{
 			"bundle": bid,
@@ -150,8 +154,10 @@ func (s *Store) Delete(bid bpv7.BundleID) error {
 					"error":  err,
 				}).Warn("Failed to delete BundlePart")
 			}
+			simHook("delete.part", bi.Id)
 		}
 
+		simHook("delete.index", bi.Id)
 		return s.bh.Delete(bi.Id, BundleItem{})
 	}
 
